@@ -469,6 +469,10 @@ class Evaluator:
 
     def call(self, fi, c: ast.Call, env):
         f = c.func
+        if isinstance(f, ast.IfExp) and len(c.args) == 2:
+            fv = self.expr(fi, f, env)                     # (heapq.nlargest if MAX else heapq.nsmallest)(n, X, key=..)
+            if isinstance(fv, tuple) and fv and fv[0] == "FUNC":
+                return self._heapq(fi, fv[1], c, env)
         # methods on abstract lists
         if isinstance(f, ast.Attribute):
             if f.attr in ("copy", "tolist") and not c.args:
